@@ -112,7 +112,7 @@ theorem contents_head (depth : Nat) (mem : Array Entry) (consume level : Nat) (h
 /-- **The bank machine's request queue is a FIFO**: after one clock edge the queue (entry being served ++ look-ahead
 FIFO) is the old queue, without its head if a RD/WR was accepted this cycle, with the request accepted from the
 crossbar this cycle appended - whatever the order and combination of the two events. -/
-theorem queue_step (c : Cfg) (s : State) (i : In) (h : FInv c s) :
+theorem queue_step (c : Cfg) (hd2 : 2 ≤ c.depth) (s : State) (i : In) (h : FInv c s) :
     FInv c (step c s i).1 ∧
     queue c (step c s i).1 = (if served c s i then (queue c s).tail else queue c s) ++ (if taken c s i then [⟨i.we, i.addr⟩] else []) := by
   obtain ⟨hsz, hc, hl, hp⟩ := h
@@ -120,7 +120,10 @@ theorem queue_step (c : Cfg) (s : State) (i : In) (h : FInv c s) :
   generalize hsvd : served c s i = sv at *
   generalize htk : taken c s i = tk at *
   have hsvd' : ((step c s i).2.wdataReady || (step c s i).2.rdataValid) = sv := hsvd
-  have htk' : (i.valid && (s.level != c.depth)) = tk := htk
+  have e0 : (c.depth == 0) = false := by simpa using (by omega : ¬ c.depth = 0)
+  have e1 : (c.depth == 1) = false := by simpa using (by omega : ¬ c.depth = 1)
+  have htk' : (i.valid && (s.level != c.depth)) = tk := by
+    rw [← htk]; simp only [taken, step, e0, e1, Bool.false_eq_true, if_false]
   have hpush : tk = true → s.level < c.depth := by
     intro ht; rw [← htk'] at ht; simp at ht; omega
   have hprod : tk = true → s.produce = idx c.depth s.consume s.level := by
@@ -128,16 +131,20 @@ theorem queue_step (c : Cfg) (s : State) (i : In) (h : FInv c s) :
     · exact h1
     · have := hpush ht; omega
   -- name the next-state components
-  have hmem : (step c s i).1.mem = if tk then s.mem.set! s.produce ⟨i.we, i.addr⟩ else s.mem := by rw [← htk']; rfl
+  have hmem : (step c s i).1.mem = if tk then s.mem.set! s.produce ⟨i.we, i.addr⟩ else s.mem := by
+    rw [← htk']; simp only [step, e0, e1, Bool.false_eq_true, if_false]
   have hsink : (!s.bufValid || sv) = (!s.bufValid || ((step c s i).2.wdataReady || (step c s i).2.rdataValid)) := by rw [hsvd']
   let pop := (s.level != 0) && (!s.bufValid || sv)
   have hcons : (step c s i).1.consume = if pop then inc c.depth s.consume else s.consume := by
-    simp only [pop, hsink]; rfl
+    simp only [pop, hsink]; simp only [step, e0, e1, Bool.false_eq_true, if_false, Bool.or_self]; rfl
   have hlev : (step c s i).1.level = if tk then (if !pop then s.level + 1 else s.level) else if pop then s.level - 1 else s.level := by
-    simp only [pop, hsink, ← htk']; rfl
-  have hprodn : (step c s i).1.produce = if tk then inc c.depth s.produce else s.produce := by rw [← htk']; rfl
-  have hbv : (step c s i).1.bufValid = if (!s.bufValid || sv) then (s.level != 0) else s.bufValid := by rw [hsink]; rfl
-  have hbuf : (step c s i).1.buf = if (!s.bufValid || sv) then s.mem[s.consume]! else s.buf := by rw [hsink]; rfl
+    simp only [pop, hsink, ← htk']; simp only [step, e0, e1, Bool.false_eq_true, if_false]
+  have hprodn : (step c s i).1.produce = if tk then inc c.depth s.produce else s.produce := by
+    rw [← htk']; simp only [step, e0, e1, Bool.false_eq_true, if_false, Bool.or_self]; rfl
+  have hbv : (step c s i).1.bufValid = if (!s.bufValid || sv) then (s.level != 0) else s.bufValid := by
+    rw [hsink]; simp only [step, e0, e1, Bool.false_eq_true, if_false]
+  have hbuf : (step c s i).1.buf = if (!s.bufValid || sv) then s.mem[s.consume]! else s.buf := by
+    rw [hsink]; simp only [step, e0, e1, Bool.false_eq_true, if_false]
   have hpop : pop = true → 0 < s.level := by
     intro hh; simp only [pop, Bool.and_eq_true, bne_iff_ne] at hh; omega
   have hinc : ∀ p, p < c.depth → inc c.depth p < c.depth := by
@@ -217,7 +224,7 @@ def runLog (c : Cfg) : State → List Entry → List Entry → List In → State
   | s, acc, srv, i :: rest =>
     runLog c (step c s i).1 (if taken c s i then acc ++ [⟨i.we, i.addr⟩] else acc) (if served c s i then srv ++ [s.buf] else srv) rest
 
-theorem runLog_inv (c : Cfg) (ins : List In) :
+theorem runLog_inv (c : Cfg) (hd2 : 2 ≤ c.depth) (ins : List In) :
     ∀ s acc srv, FInv c s → acc = srv ++ queue c s →
       FInv c (runLog c s acc srv ins).1 ∧
       (runLog c s acc srv ins).2.1 = (runLog c s acc srv ins).2.2 ++ queue c (runLog c s acc srv ins).1 := by
@@ -225,7 +232,7 @@ theorem runLog_inv (c : Cfg) (ins : List In) :
   | nil => intro s acc srv h1 h2; exact ⟨h1, h2⟩
   | cons i rest ih =>
     intro s acc srv h1 h2
-    obtain ⟨h3, h4⟩ := queue_step c s i h1
+    obtain ⟨h3, h4⟩ := queue_step c hd2 s i h1
     apply ih _ _ _ h3
     rw [h4, h2]
     cases hsv : served c s i
